@@ -40,6 +40,36 @@ impl PlanBuilder {
 }
 
 impl PlanBuilder {
+    /// Concurrent two-thread variants of generated programs (hand-offs only where needed), explored
+    /// with a preemption bound and 2 collector cycles that yield inside the drain.
+    pub fn add_concurrent(&mut self, cfg: &GenCfg, configs: &[bool], bound: u32, rules: &[Rule], max_moved: usize) -> u64 {
+        let mut progs: Vec<Program> = Vec::new();
+        generate(cfg, 1_000_000, &mut |p| {
+            progs.extend(concurrentize(&p, max_moved).into_iter().map(|q| q.collector(2, false, 0)));
+            true
+        });
+        let n = progs.len() as u64;
+        for chunk in progs.chunks(4) {
+            for &c in configs {
+                let id = self.jobs.len();
+                self.jobs.push(Job {
+                    id,
+                    programs: chunk.to_vec(),
+                    cancelable: c,
+                    no_reporter: false,
+                    bound: Some(bound),
+                    rules: rules.iter().map(|r| rule_name(*r).to_string()).collect(),
+                    max_execs: 300_000,
+                    prefix: vec![],
+                    expand_only: false,
+                    engine: "SCHED".into(),
+                    probe: None,
+                });
+            }
+        }
+        n
+    }
+
     /// A batch of hand-built programs, explored with all interleavings (no preemption bound).
     pub fn add_batch(&mut self, programs: Vec<Program>, cancelable: bool, no_reporter: bool, rules: &[Rule]) {
         for chunk in programs.chunks(50) {
@@ -133,7 +163,16 @@ pub fn plan(property: &str, tier: &str) -> Option<CheckSpec> {
             g2.max_locals = 1;
             g2.max_len = if quick { 4 } else { 5 };
             let n2 = b.add_gen(&g2, 1, &[false], &rules, 3_000_000);
-            rule_text = format!("named multi-threaded scenarios x all schedules up to the preemption bound, plus {n1} generated single-actor and {n2} two-actor lock-step programs x all placements of atomic collector cycles; an execution is non-trivial when a collector drain step falls between the first and the last queue command of the program");
+            let mut gc = GenCfg::base("C01-conc");
+            gc.traces = vec![TraceOpt { trace: 0xC01, sampled: true, remote_parent: 0 }, TraceOpt { trace: 0xC02, sampled: true, remote_parent: 9 }];
+            gc.max_spans = 3;
+            gc.max_parents = 2;
+            gc.allow_scope = true;
+            gc.max_depth = 1;
+            gc.max_locals = 1;
+            gc.max_len = if quick { 3 } else { 4 };
+            let nconc = b.add_concurrent(&gc, &[false], 2, &rules, if quick { 1 } else { 2 });
+            rule_text = format!("named multi-threaded scenarios x all schedules up to the preemption bound, plus {nconc} generated concurrent two-thread programs (operations moved to a second thread, hand-offs only where well-formedness needs them, preemptions <= 2), plus {n1} generated single-actor and {n2} two-actor lock-step programs x all placements of atomic collector cycles; an execution is non-trivial when a collector drain step falls between the first and the last queue command of the program");
             bound_text = format!("scenarios: preemptions <= {bound}, 2 collector cycles + final flush; generated: <= 3 spans, <= {} local spans, <= {} operations, <= {} cycles", g.max_locals, g.max_len, if quick { 1 } else { 2 });
             assumptions.push("wall-clock half of the statement: in the exploration the timer is abstracted to 'a cycle happens' (rule `prompt`); the library's own background thread is additionally observed free-running (report interval 10 ms, no flush(), 20 rounds, each round's spans must arrive within 20 intervals + 0.5 s) - an observation, not an enumeration; it appears under coverage.external_engine".into());
             external = Some((std::env::current_exe().unwrap().to_string_lossy().to_string(), vec!["freerun".into(), "10".into()]));
@@ -163,7 +202,16 @@ pub fn plan(property: &str, tier: &str) -> Option<CheckSpec> {
             g2.max_locals = 1;
             g2.max_len = if quick { 4 } else { 5 };
             let n2 = b.add_gen(&g2, 1, &[true], &rules, 3_000_000);
-            rule_text = format!("named multi-threaded scenarios (cancelable) x all schedules up to the preemption bound, plus {n1} + {n2} generated programs x all placements of atomic collector cycles");
+            let mut gc = GenCfg::base("C03-conc");
+            gc.traces = vec![TraceOpt { trace: 0xC31, sampled: true, remote_parent: 0 }, TraceOpt { trace: 0xC32, sampled: true, remote_parent: 9 }];
+            gc.max_spans = 3;
+            gc.max_parents = 2;
+            gc.allow_scope = true;
+            gc.max_depth = 1;
+            gc.max_locals = 1;
+            gc.max_len = if quick { 3 } else { 4 };
+            let nconc = b.add_concurrent(&gc, &[true], 2, &rules, if quick { 1 } else { 2 });
+            rule_text = format!("named multi-threaded scenarios (cancelable) x all schedules up to the preemption bound, plus {nconc} generated concurrent two-thread programs (preemptions <= 2), plus {n1} + {n2} generated programs x all placements of atomic collector cycles");
             bound_text = format!("scenarios: preemptions <= {bound}, 2 collector cycles + final flush; generated: <= 3 spans, <= {} operations", g.max_len);
         }
         "C04" => {
@@ -188,7 +236,18 @@ pub fn plan(property: &str, tier: &str) -> Option<CheckSpec> {
             g.local_attach = true;
             g.max_len = if quick { 5 } else { 6 };
             let n1 = b.add_gen(&g, if quick { 1 } else { 2 }, &[true, false], &rules, 3_000_000);
-            rule_text = format!("named cancel scenarios x both configurations x all schedules up to the preemption bound, plus {n1} generated programs with cancel() at every position x all placements of atomic collector cycles x both configurations");
+            let mut gc = GenCfg::base("C04-conc");
+            gc.traces = vec![TraceOpt { trace: 0xC41, sampled: true, remote_parent: 0 }, TraceOpt { trace: 0xC42, sampled: true, remote_parent: 9 }];
+            gc.max_spans = if quick { 2 } else { 3 };
+            gc.max_parents = 2;
+            gc.allow_scope = !quick;
+            gc.max_depth = 1;
+            gc.max_locals = if quick { 0 } else { 1 };
+            gc.allow_cancel = true;
+            gc.max_parents = 1;
+            gc.max_len = if quick { 3 } else { 4 };
+            let nconc = b.add_concurrent(&gc, &[true, false], 2, &rules, if quick { 1 } else { 2 });
+            rule_text = format!("named cancel scenarios x both configurations x all schedules up to the preemption bound, plus {nconc} generated concurrent two-thread programs (preemptions <= 2), plus {n1} generated programs with cancel() at every position x all placements of atomic collector cycles x both configurations");
             bound_text = format!("scenarios: preemptions <= {bound}; generated: <= 3 spans, 1 local span, 1 attachment, <= {} operations", g.max_len);
         }
         "C06" => {
@@ -218,7 +277,7 @@ pub fn plan(property: &str, tier: &str) -> Option<CheckSpec> {
             g2.max_switches = 2;
             g2.max_spans = 2;
             g2.max_depth = 1;
-            g2.max_len = if quick { 4 } else { 6 };
+            g2.max_len = if quick { 3 } else { 6 };
             let n2 = b.add_gen(&g2, 1, &[true, false], &rules, 3_000_000);
             for (i, prog) in string_programs().into_iter().enumerate() {
                 for c in [true, false] {
@@ -226,7 +285,20 @@ pub fn plan(property: &str, tier: &str) -> Option<CheckSpec> {
                     b.add("SEQ", prog.clone().collector(1, true, 0), c, None, &rules, false);
                 }
             }
-            rule_text = format!("attachment scenarios x both configurations x all schedules up to the preemption bound, plus {n1} + {n2} generated programs (attachments at creation, by handle, through the local parent) x all placements of atomic collector cycles, plus a string alphabet (empty, duplicate key, 2- and 4-byte UTF-8, 1 KiB) through every route");
+            let mut gc = GenCfg::base("C06-conc");
+            gc.traces = vec![TraceOpt { trace: 0xC61, sampled: true, remote_parent: 0 }, TraceOpt { trace: 0xC62, sampled: true, remote_parent: 9 }];
+            gc.max_spans = if quick { 2 } else { 3 };
+            gc.max_parents = 2;
+            gc.allow_scope = !quick;
+            gc.max_depth = 1;
+            gc.max_locals = if quick { 0 } else { 1 };
+            gc.max_attach = if quick { 1 } else { 2 };
+            gc.handle_attach = true;
+            gc.local_attach = !quick;
+            gc.max_parents = 1;
+            gc.max_len = if quick { 3 } else { 4 };
+            let nconc = b.add_concurrent(&gc, &[true, false], 2, &rules, if quick { 1 } else { 2 });
+            rule_text = format!("attachment scenarios x both configurations x all schedules up to the preemption bound, plus {nconc} generated concurrent two-thread programs (preemptions <= 2), plus {n1} + {n2} generated programs (attachments at creation, by handle, through the local parent) x all placements of atomic collector cycles, plus a string alphabet (empty, duplicate key, 2- and 4-byte UTF-8, 1 KiB) through every route");
             bound_text = format!("scenarios: preemptions <= {bound}; generated: <= {} spans, <= {} attachments, <= {} operations", g.max_spans, g.max_attach, g.max_len);
         }
         "C08" => {
@@ -258,7 +330,18 @@ pub fn plan(property: &str, tier: &str) -> Option<CheckSpec> {
             g2.max_spans = 2;
             g2.max_len = if quick { 3 } else { 5 };
             let n2 = b.add_gen(&g2, 1, &[true, false], &rules, 3_000_000);
-            rule_text = format!("all named scenarios x both configurations x all schedules up to the preemption bound, plus {n1} + {n2} generated histories of trace starts / finishes / cancels / attachments / thread exits x all placements of atomic collector cycles x both configurations");
+            let mut gc = GenCfg::base("C08-conc");
+            gc.traces = vec![TraceOpt { trace: 0xC81, sampled: true, remote_parent: 0 }, TraceOpt { trace: 0xC82, sampled: true, remote_parent: 9 }];
+            gc.max_spans = if quick { 2 } else { 3 };
+            gc.max_parents = 2;
+            gc.allow_scope = !quick;
+            gc.max_depth = 1;
+            gc.max_locals = if quick { 0 } else { 1 };
+            gc.allow_cancel = true;
+            gc.max_parents = 1;
+            gc.max_len = if quick { 3 } else { 4 };
+            let nconc = b.add_concurrent(&gc, &[true, false], 2, &rules, if quick { 1 } else { 2 });
+            rule_text = format!("all named scenarios x both configurations x all schedules up to the preemption bound, plus {nconc} generated concurrent two-thread programs (preemptions <= 2), plus {n1} + {n2} generated histories of trace starts / finishes / cancels / attachments / thread exits x all placements of atomic collector cycles x both configurations");
             bound_text = format!("scenarios: preemptions <= {bound}, 2 collector cycles + final flush; generated: <= 3 spans, <= {} operations", g.max_len);
         }
         "C02" => {
